@@ -100,8 +100,14 @@ class Probe:
         self.mark_ok = None             # is the database marked initialised only after the start-up statements?
         self.init_uses = self.check_init_uses()
 
-    def events_in(self, node):
+    def events_in(self, node, _seen=None):
+        _seen = _seen if _seen is not None else set()
         for n in pyast.walk(node):
+            if isinstance(n, pyast.Call) and isinstance(n.func, pyast.Name) and n.func.id in self.funcs \
+                    and n.func.id not in _seen and n.func.id not in ("parse", "_parse"):
+                _seen.add(n.func.id)
+                if self.events_in(self.funcs[n.func.id], _seen):
+                    return True
             if isinstance(n, pyast.Call) and isinstance(n.func, pyast.Attribute):
                 if n.func.attr in ("execute", "executemany", "executescript", "commit", "close", "remove", "unlink",
                                    "connect", "rollback"):
@@ -113,8 +119,11 @@ class Probe:
     def call_event(self, call, target):
         """Coq instr list for one call expression (or None when it is not an event)"""
         f = call.func
-        if isinstance(f, pyast.Name) and f.id == "_check_database_structure":
-            return self.block(self.funcs["_check_database_structure"].body)
+        if isinstance(f, pyast.Name) and f.id in self.funcs and f.id not in ("parse", "_parse") \
+                and self.events_in(self.funcs[f.id]):
+            # a module-level helper that touches the cache: inlined (fails closed on anything unsupported in it,
+            # e.g. executescript, which COMMITs the open transaction before it runs)
+            return self.block(self.funcs[f.id].body)
         if not isinstance(f, pyast.Attribute):
             return None
         recv = pyast.unparse(f.value)
@@ -359,6 +368,13 @@ def shared_cases(rng=None, n=0):
                            warm=True))
     cs.append(dict(sched_case("fresh", [call(0), call(1), call(0)], [2, 1, 0, 0] + [0] * 36 + [1] * 6 + [2] * 4,
                               shared=True), warm=True))
+    # one invalid text among threads of one process (seeded m9): a thread is held just before / just after the
+    # grammar run inside _parse() while another one runs through its own
+    for ka in (24, 25, 26):
+        for kb in (4, 5, 6):
+            cs.append(sched_case("fresh", [call(3), call(0)], [0] * ka + [1] * kb + [0] * 12 + [1] * 12, shared=True))
+    for kb in (24, 25, 26):
+        cs.append(sched_case("fresh", [call(3), call(0)], [1] * kb + [0] * 6 + [1] * 12 + [0] * 12, shared=True))
     for c in cs:
         if c["kind"] != "wrongpk":
             c["pre"] = []
@@ -389,6 +405,10 @@ def directed():
     for kind in KINDS:
         for ti in (0, 3):
             cs.append(sched_case(kind, [call(ti)], []))
+    # a caller decides to recreate a table, loses the write lock before the DROP, the other one stores its entry
+    # (seeded m8: executescript commits first)
+    for kind, pre in (("wrong", []), ("wrongpk", [[0, 0, 1]])):
+        cs.append(sched_case(kind, [call(0), call(1)], [0] * 6 + [1] * 6 + [0] * 40 + [1] * 40, pre=pre))
     cs.append(sched_case("wrongpk", [call(0)], [], pre=[[0, 0, 1]]))
     cs.append(sched_case("wrongpk", [call(0), call(0)], [0, 1] * 6, pre=[[0, 0, 1]]))
     cs.append(sched_case("existing", [call(0)], [], pre=[[0, 0]]))                 # hit
@@ -575,6 +595,30 @@ OPS = {"read_auto": ("Unl", "LRead false"), "read_first": ("Unl", "LRead true"),
        "auto_write": ("Unl", "LWrite false"), "commit_ro": ("Sh", "LCommit"), "commit_w": ("Res", "LCommit")}
 
 
+def _locktable_ok(ctx, r):
+    """quick pre-check without recording an obligation: all rows present and no 'err' entries"""
+    rows = (r or {}).get("rows") or [] if isinstance(r, dict) else []
+    return len(rows) >= 36 and not (r or {}).get("extra") and _lt_bad(ctx, rows) == []
+
+
+def _lt_bad(ctx, rows):
+    items = []
+    for lv, op, got in rows:
+        mine, lop = OPS[op]
+        items.append("(match acquire %s [%s] (%s) with Grant _ => 0 | Block _ => 1 | Busy => 2 end, %d)"
+                     % (mine, LV[lv], lop, {"grant": 0, "block": 1, "busy": 2}.get(got, 9)))
+    text = (core.HEADER + "From Coq Require Import List Arith.\nImport ListNotations.\n"
+            "From PV Require Import Lib.Lock.\n"
+            "Definition rows : list (nat * nat) := %s.\n"
+            "Eval vm_compute in (map (fun x => Nat.eqb (fst x) (snd x)) rows).\n" % cq_list(items))
+    ok, out, err = core.coq_run(ctx, "LockTablePre", text)
+    if not ok:
+        return ["coqc"]
+    vals = core.coq_results(out)[-1]
+    flags = [x.strip() for x in vals.strip("[] ").split(";")]
+    return [rows[i] for i, f in enumerate(flags) if f != "true"]
+
+
 def locktable_check(ctx, r):
     rows = r.get("rows") or []
     items = []
@@ -599,11 +643,30 @@ def locktable_check(ctx, r):
 
 
 # ---------------------------------------------------------------------------------------------------
+def load_scale():
+    try:
+        return max(1.0, os.getloadavg()[0] / float(os.cpu_count() or 1))
+    except OSError:
+        return 1.0
+
+
+def inconclusive(r):
+    """a harness deadline expired before the calls produced anything to judge (never a verdict)"""
+    if not isinstance(r, dict):
+        return "no result"
+    if r.get("inconclusive"):
+        return r["inconclusive"]
+    if r.get("crash") == -999:
+        return "child process hit the harness timeout"
+    return None
+
+
 def run_children(ctx, cases, workers=4):
-    """shard the cases over `workers` child processes"""
+    """shard the cases over `workers` child processes (deadline per shard scaled by size and machine load)"""
     shards = [cases[i::workers] for i in range(workers)]
     with ThreadPoolExecutor(max_workers=workers) as ex:
-        outs = list(ex.map(lambda s: core.run_child(ctx, "c02", s, timeout=900) if s else [], shards))
+        outs = list(ex.map(lambda s: core.run_child(ctx, "c02", s, timeout=(300 + 20 * len(s)) * load_scale())
+                           if s else [], shards))
     res = [None] * len(cases)
     for w, out in enumerate(outs):
         for j, r in enumerate(out):
@@ -663,15 +726,15 @@ def run(ctx):
 
     tm["tie"] = round(time.time() - t0, 1)
     # ---- S3: cases ----
-    n_rand = ctx.scaled(30, 1000)
+    n_rand = ctx.scaled(30, 600)
     dcs = directed()
     rcs = [random_case(ctx.rng) for _ in range(n_rand)]
     ccs = corrupt_cases() + timeout_cases()
-    shs = shared_cases(ctx.rng, ctx.scaled(4, 100))
+    shs = shared_cases(ctx.rng, ctx.scaled(4, 60))
     stress = []
-    for i in range(ctx.scaled(3, 30)):
+    for i in range(ctx.scaled(3, 20)):
         stress.append(stress_case(ctx.rng, ctx.scaled(8, 16), True, ctx.rng.choice(["fresh", "fresh", "wrong"])))
-    for i in range(ctx.scaled(2, 10)):
+    for i in range(ctx.scaled(2, 6)):
         stress.append(stress_case(ctx.rng, ctx.scaled(6, 12), False, "fresh"))
     lt = [{"mode": "locktable"}]
     sched_cases = dcs + rcs + ccs + shs
@@ -679,16 +742,29 @@ def run(ctx):
     lt_res = results[-1]
     sres = results[:-1]
     tm["sched_children"] = round(time.time() - t0, 1)
-    stress_res = core.run_child(ctx, "c02", stress, timeout=1500)
+    stress_res = []
+    for i0 in range(0, len(stress), 5):       # chunks, each with its own load-scaled deadline
+        chunk = stress[i0:i0 + 5]
+        stress_res += core.run_child(ctx, "c02", chunk, timeout=(120 + 180 * len(chunk)) * load_scale())
     tm["stress"] = round(time.time() - t0, 1)
+    skipped = []
 
-    # (ii) lock table
-    locktable_check(ctx, lt_res if isinstance(lt_res, dict) else {})
+    # (ii) lock table (timing-classified: one more attempt before the obligation is recorded)
+    if inconclusive(lt_res) or not _locktable_ok(ctx, lt_res):
+        lt_res = core.run_child(ctx, "c02", lt, timeout=600 * load_scale())[0]
+    if inconclusive(lt_res):
+        skipped.append({"mode": "locktable", "reason": inconclusive(lt_res)})
+        ctx.notes["locktable"] = "skipped: " + inconclusive(lt_res)
+    else:
+        locktable_check(ctx, lt_res if isinstance(lt_res, dict) else {})
 
     # (a) oracle
     n_blocked = n_steps = 0
     distinct = set()
     for c, r in zip(sched_cases, sres):
+        if inconclusive(r):
+            skipped.append({"mode": "sched", "kind": c["kind"], "reason": inconclusive(r)})
+            continue
         why = judge_sched(c, r)
         if "trace" in r:
             n_steps += len(r["trace"])
@@ -699,6 +775,9 @@ def run(ctx):
             core.report(ctx, tag_of(c), why, {"input": c, "observed": {k: r.get(k) for k in ("results", "final")},
                                               "trace_tail": r.get("trace", [])[-8:]})
     for c, r in zip(stress, stress_res):
+        if inconclusive(r):
+            skipped.append({"mode": "stress", "n": c["n"], "procs": c["procs"], "reason": inconclusive(r)})
+            continue
         why = judge_stress(c, r)
         if why:
             core.report(ctx, tag_of(c, r), why, {"input": c, "observed": r.get("final"), "calls": r.get("results")})
@@ -711,11 +790,35 @@ def run(ctx):
     if progname == "gen_prog":
         pre += "From Run%s Require Import Gen.\n" % ctx.pid
     bad = core.coq_eval_cases(ctx, "sched", pre, "case", enc, "check_case", shard=40)
-    mism = [idx[j] for j in (bad or [])]
-    ctx.oblige("correspondence:model-vs-parse()-per-attempt", bad == [] and len(idx) + n_shared == len(sres),
-               "mismatching cases: %s; cases without trace: %d" % (mism[:10], len(sres) - len(idx) - n_shared))
-    if (bad or len(idx) + n_shared != len(sres)) and not [v for v in ctx.violations if not v["no_input"]]:
-        j = mism[0] if mism else [i for i, r in enumerate(sres) if "trace" not in r][0]
+    if bad and len(bad) <= 12:
+        # the blocked / failed-at-once classification of an attempt is by timing: run a mismatching case once
+        # more before it counts (a real disagreement reproduces)
+        again = [idx[j] for j in bad]
+        res2 = run_children(ctx, [sched_cases[i] for i in again], workers=min(4, len(again)))
+        keep = []
+        for i, r2 in zip(again, res2):
+            if inconclusive(r2) or "trace" not in r2:
+                skipped.append({"mode": "sched-rerun", "kind": sched_cases[i]["kind"], "reason": inconclusive(r2) or "no trace"})
+                continue
+            sres[i] = r2
+            keep.append(i)
+        bad2 = core.coq_eval_cases(ctx, "sched2", pre, "case",
+                                   [encode_sched(sched_cases[i], sres[i], progname, guard) for i in keep], "check_case",
+                                   shard=40) if keep else []
+        ctx.notes["correspondence_reruns"] = {"first": len(bad), "still": len(bad2 or [])}
+        idx2 = keep
+        bad = bad2
+        mism = [idx2[j] for j in (bad or [])]
+    else:
+        mism = [idx[j] for j in (bad or [])]
+    n_skip = sum(1 for r in sres if inconclusive(r))
+    ctx.notes["inconclusive_skipped"] = {"count": len(skipped), "items": skipped[:10]}
+    n_notrace = sum(1 for i, r in enumerate(sres) if "trace" not in r and not inconclusive(r))
+    ctx.oblige("correspondence:model-vs-parse()-per-attempt", bad == [] and n_notrace == 0 and
+               n_skip <= max(2, len(sres) // 10),
+               "mismatching cases: %s; cases without trace: %d; inconclusive: %d" % (mism[:10], n_notrace, n_skip))
+    if (bad or n_notrace) and not [v for v in ctx.violations if not v["no_input"]]:
+        j = mism[0] if mism else [i for i, r in enumerate(sres) if "trace" not in r and not inconclusive(r)][0]
         core.violation(ctx, "correspondence-broken", {"input": sched_cases[j], "observed": sres[j]}, no_input=True)
 
     tm["coq_cases"] = round(time.time() - t0, 1)
